@@ -121,15 +121,53 @@ func clampUint(tag string, v uint64) uint64 {
 	return v
 }
 
+func intBits(tag string) uint {
+	switch strings.TrimPrefix(strings.TrimPrefix(tag, "*"), "u") {
+	case "int8":
+		return 8
+	case "int16":
+		return 16
+	case "int32":
+		return 32
+	}
+	return 64
+}
+
+// intBoundaries: min, min+1, -1, 0, 1, max-1, max of the signed type, and the values around half its range.
+func intBoundaries(tag string) []int64 {
+	b := intBits(tag)
+	max := int64(1)<<(b-1) - 1
+	return []int64{-max - 1, -max, -1, 0, 1, max - 1, max, max / 2, max/2 + 1, -(max / 2) - 1}
+}
+
+// uintBoundaries: 0, 1, the values around half the range (where the sign bit of the signed type of the same
+// width sits), max-1, max.
+func uintBoundaries(tag string) []uint64 {
+	b := intBits(tag)
+	var max uint64 = math.MaxUint64
+	if b < 64 {
+		max = uint64(1)<<b - 1
+	}
+	half := uint64(1) << (b - 1)
+	return []uint64{0, 1, half - 1, half, half + 1, max - 1, max}
+}
+
 // genGoVal draws from every Go value class of §3.6 (all JSON-representable).
 func genGoVal(rt *rapid.T, label string, depth int) sim.Val {
 	switch rapid.IntRange(0, 15).Draw(rt, label+".goclass") {
 	case 0:
 		tag := rapid.SampledFrom(intTags).Draw(rt, label+".itag")
+		if rapid.Bool().Draw(rt, label+".iboundary") {
+			// the boundaries of the drawn width itself (a sign or width slip shows at the ends of the range)
+			return sim.Val{T: tag, I: rapid.SampledFrom(intBoundaries(tag)).Draw(rt, label+".ibound")}
+		}
 		v := rapid.SampledFrom([]int64{0, 1, -1, 127, -128, 32767, 1 << 31, -(1 << 31), 1<<53 + 1, math.MaxInt64, math.MinInt64, 42}).Draw(rt, label+".ival")
 		return sim.Val{T: tag, I: clampInt(tag, v)}
 	case 1:
 		tag := rapid.SampledFrom(uintTags).Draw(rt, label+".utag")
+		if rapid.Bool().Draw(rt, label+".uboundary") {
+			return sim.Val{T: tag, U: rapid.SampledFrom(uintBoundaries(tag)).Draw(rt, label+".ubound")}
+		}
 		v := rapid.SampledFrom([]uint64{0, 1, 255, 65535, 1 << 32, 1<<53 + 1, 1 << 63, math.MaxUint64, 7}).Draw(rt, label+".uval")
 		return sim.Val{T: tag, U: clampUint(tag, v)}
 	case 2:
